@@ -160,6 +160,27 @@ func c11Ops() []concOp {
 			return digestFrame(q.Eval("n", qframe.Expr("mix", types.ColumnName("i"), types.ColumnName("k")), eval.EvalContext(ctx)).
 				Eval("m", qframe.Expr("hyp", types.ColumnName("f"), 2.0), eval.EvalContext(ctx)))
 		}},
+		// aggregation functions that sort / overwrite the slice they are handed (a median by in-place sort is the usual one)
+		{"Aggregate(user fns that reorder their argument, no keys)", true, func(q qframe.QFrame, y func()) string {
+			return digestUnordered(q.GroupBy().Aggregate(
+				qframe.Aggregation{Fn: func(v []int) int {
+					y()
+					sort.Ints(v)
+					r := v[len(v)/2]
+					for i := range v {
+						v[i] = -1
+					}
+					return r
+				}, Column: "i", As: "med"},
+				qframe.Aggregation{Fn: func(v []float64) float64 {
+					y()
+					n := float64(len(v))
+					for i := range v {
+						v[i] = 0
+					}
+					return n
+				}, Column: "f", As: "fl"}))
+		}},
 		// callback-free operations (race pass; in the scheduler they only have start/end points)
 		{"Filter(like)", false, func(q qframe.QFrame, y func()) string {
 			return digestFrame(q.Filter(qframe.Filter{Column: "s", Comparator: "like", Arg: "%a%"}))
@@ -235,6 +256,20 @@ func c11Ops() []concOp {
 		}},
 		{"Eval(shared expression)", false, func(q qframe.QFrame, y func()) string {
 			return digestFrame(q.Eval("n", c11SharedExpr, eval.EvalContext(c11EvalCtx())))
+		}},
+		// a frame of its own with 40000 rows (sizes at which work might be split over goroutines), three aggregations
+		{"Aggregate(three built-ins) on 40000 rows", false, func(q qframe.QFrame, y func()) string {
+			big := c10BigFrame()
+			r := big.GroupBy(groupby.Columns("k")).Aggregate(qframe.Aggregation{Fn: "sum", Column: "w"}, qframe.Aggregation{Fn: "max", Column: "v"}, qframe.Aggregation{Fn: "avg", Column: "w", As: "aw"})
+			bad := big.GroupBy(groupby.Columns("k")).Aggregate(qframe.Aggregation{Fn: "avg", Column: "v"}, qframe.Aggregation{Fn: "sum", Column: "w"}, qframe.Aggregation{Fn: "max", Column: "w", As: "mw"})
+			return digestUnordered(r) + fmt.Sprint(bad.Err != nil)
+		}},
+		{"Sort / Distinct / Filter on 40000 rows", false, func(q qframe.QFrame, y func()) string {
+			big := c10BigFrame()
+			s := big.Sort(qframe.Order{Column: "v"}, qframe.Order{Column: "w", Reverse: true}).Slice(0, 5)
+			d := big.Distinct(groupby.Columns("k", "v"))
+			f := big.Filter(qframe.Filter{Column: "v", Comparator: ">", Arg: 6})
+			return digestFrame(s) + fmt.Sprint(d.Len(), f.Len())
 		}},
 		{"Aggregate(shared aggregations)", false, func(q qframe.QFrame, y func()) string {
 			return digestUnordered(q.GroupBy(groupby.Columns("k")).Aggregate(c11SharedAggs...))
@@ -713,8 +748,8 @@ func init() {
 		},
 		Level: "model_checking",
 		Rule: "(a) controlled cooperative scheduler: logical threads each run one operation on the same frame or on a frame sharing storage with it (slice, sorted copy, column copy); scheduling points are operation start, operation end and EVERY user callback invocation (filter predicate, apply fn0/fn1/fn2, aggregation function, eval function; the callback yields before it reads its arguments). " +
-			"All interleavings (no preemption bound) for every unordered pair and self-pair of 12 callback-bearing operations x 5 sharing relations (same frame, slice, sorted copy, column copy, both on one frame that was itself derived by adding columns) and for each callback operation against each of 28 callback-free operations; three threads with preemption bound 2 (thorough 3). Oracle: every operation returns what it returns alone, the shared frame is unchanged, no panic; replay of a choice prefix must find the recorded number of enabled threads. states = schedules executed, transitions = scheduling points. " +
-			"(b) free-running pass in a -race build: every unordered pair and self-pair of all 40 operations (five of them using argument values shared between the calls) x 5 relations released together by a barrier, one fresh process per pair (relations in rotated order, no sequential run before the racing one: process-wide and per-frame lazily built state is cold), 3 (10) repetitions, results compared with the sequential ones computed afterwards on equal frames; a race report is attributed by stderr markers and re-run 5 times in fresh processes before it is believed. Non-trivial = distinct (operation tuple, relation) explored by the scheduler.",
+			"All interleavings (no preemption bound) for every unordered pair and self-pair of 13 callback-bearing operations x 5 sharing relations (same frame, slice, sorted copy, column copy, both on one frame that was itself derived by adding columns) and for each callback operation against each of 30 callback-free operations; three threads with preemption bound 2 (thorough 3). Oracle: every operation returns what it returns alone, the shared frame is unchanged, no panic; replay of a choice prefix must find the recorded number of enabled threads. states = schedules executed, transitions = scheduling points. " +
+			"(b) free-running pass in a -race build: every unordered pair and self-pair of all 43 operations (five of them using argument values shared between the calls, two on a shared 40000-row frame) x 5 relations released together by a barrier, one fresh process per pair (relations in rotated order, no sequential run before the racing one: process-wide and per-frame lazily built state is cold), 3 (10) repetitions, results compared with the sequential ones computed afterwards on equal frames; a race report is attributed by stderr markers and re-run 5 times in fresh processes before it is believed. Non-trivial = distinct (operation tuple, relation) explored by the scheduler.",
 		Assumptions: []string{
 			"qframe contains no synchronisation operation, so the scheduler can only regain control at operation boundaries and user callbacks; memory-access-level interleavings are covered by the race pass: two synchronisation-free operations forked from a barrier have no happens-before path between them in any schedule, so the Go race detector reports a conflicting access pair whichever schedule runs (limits: shadow memory keeps 4 accesses per word)",
 			"a data-race-free program is sequentially consistent (Go memory model); with no operation writing memory another reads, each returns its sequential result",
